@@ -23,6 +23,8 @@ EXTENDS Integers, Sequences, FiniteSets, TLC, Json
 CONSTANTS Sigs,     \* signal classes modelled in this configuration
           WithExit, \* BOOLEAN: also model the EXIT condition
           MaxH,     \* bound on the history length
+          InitVals, \* inherited dispositions considered: subset of {"D", "I", "C"} ("C": a handler
+                    \* installed before the shell started, e.g. the language runtime's for SEGV/BUS)
           UniformInit \* BOOLEAN: only the two start-ups "everything default" / "everything ignored"
                       \* (wide configurations); FALSE: every combination of inherited dispositions
 
@@ -64,7 +66,7 @@ FromInit(d) == [act |-> IF d = "I" THEN "I" ELSE "D", orig |-> "I", pend |-> FAL
 NewState(a) == [act |-> a, orig |-> "U", pend |-> FALSE, par |-> "N", int |-> "D"]
 IsVac(e)    == e.act = "V"
 
-Init == /\ init \in [Sigs -> {"D", "I"}]
+Init == /\ init \in [Sigs -> InitVals]
         /\ \A s \in Sigs \cap {"KILL", "STOP"} : init[s] = "D"    \* cannot be ignored
         /\ UniformInit => \A s, t \in Sigs \ {"KILL", "STOP"} : init[s] = init[t]
         /\ ent = [c \in Conds |-> Vacant]
@@ -292,14 +294,19 @@ TypeOK ==
 
 \* the disposition installed is the one implied by the user's action combined
 \* with the shell's own needs
+\* A handler inherited from before the shell started (init = "C") that is still
+\* installed - recognisable because the shell never blocks it - counts as the
+\* default disposition (trap/state.rs: from_initial_disposition).
+EffSys(s) == IF init[s] = "C" /\ sys[s] = "C" /\ ~blk[s] THEN "D" ELSE sys[s]
+IniEff(s) == IF init[s] = "I" THEN "I" ELSE "D"
 DispositionConsistent ==
   proc = "R" => \A s \in Sigs :
-    IF IsVac(ent[s]) THEN sys[s] = init[s]
-    ELSE sys[s] = MaxD(ent[s].int, Disp(ent[s].act))
+    IF IsVac(ent[s]) THEN EffSys(s) = IniEff(s)
+    ELSE EffSys(s) = MaxD(ent[s].int, Disp(ent[s].act))
 
 \* no-lost-signal protocol of concurrency/signal.rs: a caught signal is blocked
 \* outside select; defaulted and ignored signals are not blocked
-CatchIffBlocked == proc = "R" => \A s \in Sigs : (sys[s] = "C") = blk[s]
+CatchIffBlocked == proc = "R" => \A s \in Sigs : (EffSys(s) = "C") = blk[s]
 PendingOnlyIfBlocked == \A s \in Sigs : kp[s] => blk[s]
 
 \* in a non-interactive shell a signal ignored on entry can be neither trapped
